@@ -426,6 +426,26 @@ REORDER = re.compile(r"^(sort(ed)?(_unstable)?(_by)?(_key|_cached_key)?|reverse|
 UNORDERED_TARGET = re.compile(r"(BTreeMap|BTreeSet|std::collections::hash::(map::HashMap|set::HashSet)|hashbrown::|UnorderedHash(Map|Set))")
 
 
+UNORDERED_SRC = re.compile(r"(unordered_hash_map::UnorderedHashMap|unordered_hash_set::UnorderedHashSet|collections::hash::map::HashMap|"
+                           r"collections::hash::set::HashSet|hashbrown::(map::)?HashMap|hashbrown::(set::)?HashSet)")
+
+
+def _from_unordered(f, c):
+    """The sequence being re-ordered was read out of a hashed container: it has no order of its own to lose (sorting it is
+    what makes the blob deterministic)."""
+    rl = op_local(c.args[0]) if c.args else None
+    if rl is None:
+        return False
+    rl = f.resolve_copy(rl)
+    for x in f.calls():
+        if x.name() in ("iter", "into_iter", "keys", "values", "into_keys", "into_values", "drain") and \
+                UNORDERED_SRC.search(x.path + " " + x.via):
+            d = place_local(x.dest)
+            if d is not None and rl in f.flows_to(d):
+                return True
+    return False
+
+
 def reorder_calls(fns):
     """Calls in `fns` that change the order (or the multiplicity) of the elements of a sequence: the slice / Vec / iterator
     re-ordering operations, and collecting into a container that has an order of its own."""
@@ -436,6 +456,8 @@ def reorder_calls(fns):
                 continue
             nm = c.name()
             if REORDER.match(nm):
+                if _from_unordered(f, c):
+                    continue
                 out.append((f, c, nm))
             elif nm in ("collect", "from_iter", "extend") and any(UNORDERED_TARGET.search(str(g)) for g in c.gargs):
                 out.append((f, c, nm + " into " + UNORDERED_TARGET.search(" ".join(map(str, c.gargs))).group(1)))
